@@ -147,7 +147,7 @@ def history(tmin_name='tmin'):
     from ..pyvc.values import SHistory
 
     def mk(run, name, empty=False, default_value=None, **kw):
-        tmin = run.cur_env[tmin_name]
+        tmin = run.local(tmin_name)
         if empty:
             # the declared default must be what the code's lambda builds: ([tmin], ['S'])
             ok = (isinstance(default_value, tuple) and len(default_value) == 2 and all(isinstance(x, SList) for x in default_value))
